@@ -32,7 +32,7 @@ TRUSTED_EXTRA = ["lean/Tdms/Spec/Format.lean encodeIndex (the independent index 
 
 def meta_of(f, with_data):
     """objects, properties, types, lengths, dtypes (and data when read)"""
-    out = dict(groups=[[g.name, [c.name for c in g.channels()]] for g in f.groups()],
+    out = dict(version=f.tdms_version, groups=[[g.name, [c.name for c in g.channels()]] for g in f.groups()],
                props=[[k, canon.norm(canon.prop_value(v))] for k, v in f.properties.items()], chans=[])
     for g in f.groups():
         out["chans"].append(["group", g.name, [[k, canon.norm(canon.prop_value(v))] for k, v in g.properties.items()]])
@@ -147,8 +147,9 @@ def writer_file(rnd, nptdms, tmp):
         if os.path.exists(q):
             os.unlink(q)
     mode = "w"
+    version = rnd.choice([4712, 4713])
     for _ in range(rnd.randint(1, 2)):
-        with TdmsWriter(p, mode=mode, index_file=True) as w:
+        with TdmsWriter(p, mode=mode, index_file=True, version=version) as w:
             for _ in range(rnd.randint(1, 3)):
                 objs = []
                 if rnd.random() < 0.4:
